@@ -376,6 +376,37 @@ def _readonly(a):
     return b
 
 
+def _poisoned(a):
+    """the same array with one not-a-number and one infinite element (a dead and a saturated pixel), float / complex arrays only"""
+    b = np.array(a, copy=True)
+    if b.dtype.kind in "fc" and b.size >= 2:
+        b.flat[b.size // 3] = np.nan
+        b.flat[(2 * b.size) // 3] = np.inf
+    return b
+
+
+_SCRIBBLES = [0]
+
+
+def _scribble(obj, pools):
+    """overwrite every writeable array inside a returned object (unless it is, or is a view of, one of the caller's own arrays)"""
+    done = 0
+    if isinstance(obj, np.ndarray):
+        if obj.flags.writeable and obj.size and not any(np.shares_memory(obj, a) for pl in pools for a in pl.values() if isinstance(a, np.ndarray)):
+            if obj.dtype.kind == "b":
+                np.logical_not(obj, out=obj)
+            elif obj.dtype.kind in "iufc":
+                _SCRIBBLES[0] += 1            # never the same garbage twice (an earlier scribble must not hide a later one)
+                obj[...] = (np.arange(obj.size).reshape(obj.shape) % 7 + 3 * _SCRIBBLES[0]).astype(obj.dtype)
+            else:
+                return 0
+            done = 1
+    elif isinstance(obj, (tuple, list)):
+        for x in obj:
+            done += _scribble(x, pools)
+    return done
+
+
 LAYOUTS = [("fortran-order", lambda a: np.asfortranarray(a) if a.ndim >= 2 else a.copy()), ("strided-view", _strided), ("read-only", _readonly)]
 
 
@@ -406,6 +437,7 @@ class Recorder:
         self.tok = {}
         self.events = [dict(op="pool", tokens=[self.t(arr_token(self.pools[i][nm])) for i, nm in self.keys])]
         self.findings = []
+        self.returned = []          # (position of the call event in self.events, the object it returned)
 
     def t(self, h):
         return self.tok.setdefault(h, len(self.tok) + 1)
@@ -437,6 +469,8 @@ class Recorder:
         if err:
             ev["raised"] = err
         self.events.append(ev)
+        if err is None and not hasattr(res, "scrn") and not hasattr(res, "covariance_matrix"):
+            self.returned.append((len(self.events), res))
         if err is None and before == after and args and not e["exempt"] and VARIANT_BUDGET.get(e["name"], 0) < 2:
             # the same VALUES in another memory layout / as a read-only array: same result, and nothing may be written
             VARIANT_BUDGET[e["name"]] = VARIANT_BUDGET.get(e["name"], 0) + 1
@@ -457,6 +491,25 @@ class Recorder:
                     continue
                 agree.append(bool(ok))
                 labels.append(label)
+            # ... and with a dead (nan) and a saturated (inf) element in every floating argument: the call may return what it
+            # likes (or raise), but it must still not write into its arguments and must still be a function of them
+            alt = [_poisoned(x) for x in args]
+            if any(not np.array_equal(a0, a1, equal_nan=True) or np.isnan(a1).any() for a0, a1 in zip(args, alt) if a1.dtype.kind in "fc"):
+                keep = [arr_token(x) for x in alt]
+                try:
+                    with warnings.catch_warnings():
+                        warnings.simplefilter("ignore")
+                        with np.errstate(all="ignore"), contextlib.redirect_stdout(io.StringIO()):
+                            r1 = e["call"](e["fn"], alt)
+                            same_args = [arr_token(x) for x in alt] == keep
+                            r2 = e["call"](e["fn"], alt)
+                    ok = same_args and [arr_token(x) for x in alt] == keep and res_token(r1) == res_token(r2)
+                    agree.append(bool(ok))
+                    labels.append("non-finite-elements" if same_args else "read-only")      # a write is reported as a write
+                except Exception:  # noqa - refusing such input is not a purity matter (but the refusal must not have written)
+                    if [arr_token(x) for x in alt] != keep:
+                        agree.append(False)
+                        labels.append("read-only")
             if agree:
                 self.events.append(dict(op="batch", f=fidx + 1, name=e["name"] + "[" + ",".join(l for l, a in zip(labels, agree) if not a) + "]"
                                         if not all(agree) else e["name"], single=[True] * len(agree), batched=agree, layouts=labels))
@@ -475,6 +528,14 @@ class Recorder:
                     agree.append(False)
             self.events.append(dict(op="batch", f=fidx + 1, name=e["name"], single=[True] * b["n"], batched=agree))
         return ev
+
+    def scribble(self, rng, which=None):
+        """the caller writes into an object an earlier call returned (which: index into the calls made so far)"""
+        if not self.returned:
+            return
+        pos, obj = self.returned[int(rng.integers(0, len(self.returned))) if which is None else which % len(self.returned)]
+        if _scribble(obj, self.pools):
+            self.events.append(dict(op="scribble", f=pos))
 
     def mutate(self, p, rng):
         nm = self.names[int(rng.integers(0, len(self.names)))]
@@ -576,15 +637,17 @@ def explain(trace, l):
     if ev["op"] == "batch":
         if "layouts" in ev:
             bad_l = [l for l, a in zip(ev["layouts"], ev["batched"]) if not a]
-            kind = "writes-into-argument" if bad_l == ["read-only"] else "layout-dependent"
+            kind = "writes-into-argument" if set(bad_l) == {"read-only"} else ("not-deterministic-on-non-finite-input" if bad_l == ["non-finite-elements"] else "layout-dependent")
             return "%s:%s" % (kind, ev["name"].split("[read-only")[0]), dict(entry=ev["name"], layouts=bad_l)
         return "batch-itemwise:" + ev["name"], dict(entry=ev["name"], items_agree=ev["batched"])
     if ev["op"] == "call":
         if ev["after"] != ev["before"]:
             idx = [i for i, (a, b) in enumerate(zip(ev["before"], ev["after"])) if a != b]
             return "argument-modified:" + ev["name"], dict(entry=ev["name"], argument_positions=idx)
-        return "not-deterministic:" + ev["name"], dict(entry=ev["name"], note="same entry point and argument contents returned a "
-                                                        "different result earlier in this program", raised=ev.get("raised"))
+        scr = any(e2["op"] == "scribble" for e2 in trace[:l - 1])
+        return ("result-shared-with-library-state:" if scr else "not-deterministic:") + ev["name"], \
+            dict(entry=ev["name"], note="same entry point and argument contents returned a different result earlier in this program"
+                 + (" (the caller had written into an earlier result)" if scr else ""), raised=ev.get("raised"))
     return "trace-rejected", dict(event=ev)
 
 
@@ -597,15 +660,24 @@ def programs_from_skeletons(skels, entries, rng, per_skeleton):
         for _ in range(per_skeleton):
             m = {1: pure[k % len(pure)], 2: pure[(k * 7 + 3) % len(pure)], 3: exempt[k % len(exempt)]}
             k += 1
-            out.append([(st["op"], m.get(st["f"]), [a - 1 for a in st["args"]]) for st in sk])
+            out.append([(st["op"], m.get(st["f"]) if st["op"] != "scribble" else st["f"], [a - 1 for a in st["args"]]) for st in sk])
     return out
 
 
 def execute(entries, prog, rng, equal_pools=False):
     rec = Recorder(entries, rng, equal_pools)
-    for op, f, args in prog:
+    made = {}                                    # position in the program -> index into rec.returned
+    for k, (op, f, args) in enumerate(prog, start=1):
         if op == "call":
+            n0 = len(rec.returned)
             rec.call(f, args[0], args[1] if len(args) > 1 else None)
+            if len(rec.returned) > n0:
+                made[k] = n0
+        elif op == "scribble":
+            if f is None:
+                rec.scribble(rng)
+            elif f in made:
+                rec.scribble(rng, made[f])
         else:
             rec.mutate(args[0], rng)
     return rec
@@ -645,9 +717,20 @@ def run(run):
                 u = rng.random()
                 if u < 0.12:
                     prog.append(("mutate", None, [int(rng.integers(0, 2))]))
+                elif u < 0.22:
+                    prog.append(("scribble", None, []))
                 else:
                     prog.append(("call", int(rng.integers(0, len(entries))), [int(rng.integers(0, 2)), int(rng.integers(0, 2))]))
             rec = execute(entries, prog, rng, equal_pools=bool(rng.integers(0, 2)))
+            traces.append(rec.events)
+            findings += rec.findings
+        # every entry point: call, the caller overwrites what it was given, the same call again
+        n_scr = 0
+        for f in range(len(entries)):
+            if entries[f]["exempt"]:
+                continue
+            rec = execute(entries, [("call", f, [0, 0]), ("scribble", 1, []), ("call", f, [0, 0]), ("scribble", 3, []), ("call", f, [0, 0])], rng)
+            n_scr += sum(1 for ev in rec.events if ev["op"] == "scribble")
             traces.append(rec.events)
             findings += rec.findings
     finally:
@@ -686,7 +769,7 @@ def run(run):
     run.sample([dict(op=e["op"], name=e.get("name"), args=e.get("args"), before=e.get("before"), after=e.get("after"), res=e.get("res"))
                 for e in traces[0][:6]])
     run.aux.update(entries=len(entries), model_programs=n_model, long_programs=n_inproc - n_model, cross_process_orders=3 if quick else 6,
-                   events=sum(len(t) for t in traces), min_calls_per_entry=min(calls.values()), rejected=len(rejected))
+                   events=sum(len(t) for t in traces), results_overwritten_by_caller=sum(1 for t in traces for ev in t if ev["op"] == "scribble"), min_calls_per_entry=min(calls.values()), rejected=len(rejected))
     run.bounds = dict(cfg=cfg, skeletons=len(skels), long_program_length=30)
     run.exhaustive = False
     run.assumptions += [
@@ -720,6 +803,8 @@ def replay(run, case):
                 rec.call(names[st["name"]], pools[0], pools[-1])
             elif st["op"] == "mutate":
                 rec.mutate(keys[st["args"][0] - 1][0], rng)
+            elif st["op"] == "scribble":
+                rec.scribble(rng, len(rec.returned) - 1)
     finally:
         np.random.set_state(saved)
     _, rejected = validate(run, [rec.events], "PurityTrace/replay")
